@@ -1,5 +1,5 @@
 (* C10 - The engine runs exactly what is in the hierarchy after any structural history.
-   Model: Model/Struct.v (reports of the store operations; book_apply = Engine.apply_update/_delete_path/
+   Model: Model/Struct.v (reports of the store operations; book_apply / engine_apply = Engine.apply_update/_delete_path (deletions first, only what the store still holds is registered; the pinned order is book_apply_pinned)/
    _add_process_path/_add_step_path) with Model/Steps.v and Model/Sched.v; proofs: Proofs/Struct_proofs.v.
    The scheduler only ever polls the processes of its table (Model/Sched.v iter folds over procs) and creates fronts
    at the current time; what is proved here is the table part, including the invariant "process table = non-step process
@@ -10,33 +10,38 @@
    This file contains only statements closed by `exact`, their assumptions and non-vacuity examples.
    Generated once by tools/genprops.py from the proved lemmas (statements restated verbatim). *)
 From Coq Require Import List NArith ZArith Bool Lia Sorting.Permutation.
-From Viv Require Import Base.Assoc Base.Tree Model.Paths Model.Steps Model.Struct Model.StructC Proofs.Struct_proofs Proofs.Consistent_proofs Proofs.MoveP_proofs Proofs.Consistent2_proofs Proofs.Sched_entry_proofs.
+From Viv Require Import Base.Assoc Base.Tree Model.Paths Model.Steps Model.Struct Model.StructC Proofs.Struct_proofs Proofs.Consistent_proofs Proofs.MoveP_proofs Proofs.Consistent2_proofs Model.Fronts Proofs.Fronts_proofs Proofs.Sched_entry_proofs.
 Import ListNotations.
 
-(* after an update no registered process lies under a path it deleted: nothing deleted (or moved away under its old path) is ever polled again *)
+(* DELETIONS FIRST: after an update a registered process lies under a path the update deleted only if the same update (re-)registered it there - what was deleted (or moved away under its old path) is never polled again, what the update put there is *)
 Theorem C10_book_apply_drops :
   forall (b : book) (rp : reports) (b' : book) (d p : list key) (o : N),
          book_apply b rp = Ok b' ->
-         In d (r_deletions rp) -> In (p, o) (b_procs b') -> starts_with p d = false.
+         In d (r_deletions rp) ->
+         In (p, o) (b_procs b') ->
+         starts_with p d = true ->
+         exists pi : pinfo, In (p, pi) (r_process rp) /\ pi_step pi = false /\ o = pi_obj pi.
 Proof. exact @book_apply_drops. Qed.
 Print Assumptions C10_book_apply_drops.
 
-(* ... nor any registered step *)
+(* ... a registered step: only if the same update filed it (through the step updates, or as a Step among the process updates) *)
 Theorem C10_book_apply_drops_steps :
   forall (b : book) (rp : reports) (b' : book) (d p : list key) (o : N),
          book_apply b rp = Ok b' ->
-         In d (r_deletions rp) -> In (p, o) (b_steps b') -> starts_with p d = false.
+         In d (r_deletions rp) ->
+         In (p, o) (b_steps b') ->
+         starts_with p d = true ->
+         exists pi : pinfo,
+           (In (p, pi) (r_step rp) \/ In (p, pi) (r_process rp) /\ pi_step pi = true) /\
+           o = pi_obj pi.
 Proof. exact @book_apply_drops_steps. Qed.
 Print Assumptions C10_book_apply_drops_steps.
 
-(* every process the store reports as created is registered (unless the same update deletes it) *)
+(* every (non-step) process the store reports is registered - also under a path the same update deleted (the folding of the reports alone; the full step first drops what the store no longer holds) *)
 Theorem C10_book_apply_registers :
   forall (b : book) (rp : reports) (b' : book) (p : list key) (pi : pinfo),
          book_apply b rp = Ok b' ->
-         In (p, pi) (r_process rp) ->
-         pi_step pi = false ->
-         (forall d : list key, In d (r_deletions rp) -> starts_with p d = false) ->
-         In p (map fst (b_procs b')).
+         In (p, pi) (r_process rp) -> pi_step pi = false -> In p (map fst (b_procs b')).
 Proof. exact @book_apply_registers. Qed.
 Print Assumptions C10_book_apply_registers.
 
@@ -125,7 +130,7 @@ Theorem C10_consistent_generate :
 Proof. exact @consistent_generate. Qed.
 Print Assumptions C10_consistent_generate.
 
-(* ... move step (repaired Store.move) *)
+(* ... move step (repaired Store.move); no premise besides success *)
 Theorem C10_consistent_move :
   forall (mk_child : N -> cnode * N) (D : Type) (build : D -> N -> cnode * N)
            (copy_procs : cnode -> N -> cnode * N) (t : cnode) (here : list key) 
@@ -133,22 +138,15 @@ Theorem C10_consistent_move :
            (uid' : N) (b b' : book),
          cwf t ->
          consistent_procs t b ->
-         starts_with (tgt ++ [src]) (here ++ [src]) = false ->
-         starts_with (here ++ [src]) (tgt ++ [src]) = false ->
          apply_op mk_child D build copy_procs vfixed t here (OpMove D src tgt) uid =
          Ok (t', rp, uid') -> book_apply b rp = Ok b' -> consistent_procs t' b'.
 Proof. exact @consistent_move. Qed.
 Print Assumptions C10_consistent_move.
 
-(* the table keeps one entry per path *)
+(* the table keeps one entry per path (no premise on the report) *)
 Theorem C10_book_apply_nodup :
   forall (b : book) (rp : reports) (b' : book),
-         NoDup (map fst (b_procs b)) ->
-         NoDup
-           (map fst (filter (fun pp : list key * pinfo => negb (pi_step (snd pp))) (r_process rp))) ->
-         (forall (p : list key) (pi : pinfo),
-          In (p, pi) (r_process rp) -> pi_step pi = false -> ~ In p (map fst (b_procs b))) ->
-         book_apply b rp = Ok b' -> NoDup (map fst (b_procs b')).
+         NoDup (map fst (b_procs b)) -> book_apply b rp = Ok b' -> NoDup (map fst (b_procs b')).
 Proof. exact @book_apply_nodup. Qed.
 Print Assumptions C10_book_apply_nodup.
 
@@ -228,26 +226,23 @@ Theorem C10_move_reports :
 Proof. exact @move_reports. Qed.
 Print Assumptions C10_move_reports.
 
-(* Engine.apply_update registers exactly the reported non-step processes and drops exactly those under reported deletions *)
+(* Engine.apply_update's folding: deletions first, then registration - registered are the old entries under no reported deletion that are not re-assigned, and every reported non-step process *)
 Theorem C10_book_apply_procs :
   forall (b : book) (rp : reports) (b' : book) (q : list key) (o : N),
          NoDup (map fst (b_procs b)) ->
-         (forall (p : list key) (pi : pinfo),
-          In (p, pi) (r_process rp) ->
-          pi_step pi = false -> forall d : list key, In d (r_deletions rp) -> starts_with p d = false) ->
-         NoDup
-           (map fst (filter (fun pp : list key * pinfo => negb (pi_step (snd pp))) (r_process rp))) ->
-         (forall (p : list key) (pi : pinfo),
-          In (p, pi) (r_process rp) -> pi_step pi = false -> ~ In p (map fst (b_procs b))) ->
+         (forall (p : list key) (pi pi' : pinfo),
+          In (p, pi) (filter nonstep (r_process rp)) ->
+          In (p, pi') (filter nonstep (r_process rp)) -> pi_obj pi = pi_obj pi') ->
          book_apply b rp = Ok b' ->
          In (q, o) (b_procs b') <->
          In (q, o) (b_procs b) /\
-         (forall d : list key, In d (r_deletions rp) -> starts_with q d = false) \/
+         (forall d : list key, In d (r_deletions rp) -> starts_with q d = false) /\
+         ~ In q (map fst (filter nonstep (r_process rp))) \/
          (exists pi : pinfo, In (q, pi) (r_process rp) /\ pi_step pi = false /\ o = pi_obj pi).
 Proof. exact @book_apply_procs. Qed.
 Print Assumptions C10_book_apply_procs.
 
-(* ... move step with a nested source path *)
+(* ... move step with a nested source path (the folding alone needs: the target is not inside the moved subtree; the full step does not: consistent_movep_any) *)
 Theorem C10_consistent_movep :
   forall (mk_child : N -> cnode * N) (D : Type) (build : D -> N -> cnode * N)
            (copy_procs : cnode -> N -> cnode * N) (vr : variant) (t : cnode)
@@ -276,7 +271,7 @@ Theorem C10_movep_reports :
 Proof. exact @movep_reports. Qed.
 Print Assumptions C10_movep_reports.
 
-(* THE ENGINE RUNS EXACTLY WHAT IS IN THE HIERARCHY, one operation: if the process table and the step table list exactly the process / step nodes of the hierarchy (one entry per path), they still do after any structural operation (_add, _delete in both forms, _generate at a new key, _divide into new distinct keys, _move with a key or a nested path) followed by the engine bookkeeping *)
+(* THE FOLDING OF THE REPORTS KEEPS THE TABLES = THE HIERARCHY, one operation: if the process table and the step table list exactly the process / step nodes of the hierarchy (one entry per path), they still do after any structural operation (_add, _delete in both forms, _generate at a new key, _divide into new distinct keys, _move with a key or a nested path not into the moved subtree) followed by Engine.apply_update's folding (deletions first, then registration) *)
 Theorem C10_consistent_op :
   forall (mk_child : N -> cnode * N) (D : Type) (build : D -> N -> cnode * N)
            (copy_procs : cnode -> N -> cnode * N),
@@ -289,7 +284,7 @@ Theorem C10_consistent_op :
          forall (t : cnode) (here : list key) (o : sop D) (uid : N) (t' : cnode) 
            (rp : reports) (uid' : N) (b b' : book),
          cwf t ->
-         op_ok D t here o ->
+         bop_ok D t here o ->
          consistent_procs t b ->
          consistent_steps t b ->
          apply_op mk_child D build copy_procs vfixed t here o uid = Ok (t', rp, uid') ->
@@ -415,7 +410,7 @@ Theorem C10_consistent_move_any :
 Proof. exact @consistent_move_any. Qed.
 Print Assumptions C10_consistent_move_any.
 
-(* ... move with a nested source, both tables *)
+(* ... move with a nested source, the FULL engine step (only what the store still holds is registered): no premise on the target *)
 Theorem C10_consistent_movep_any :
   forall (mk_child : N -> cnode * N) (D : Type) (build : D -> N -> cnode * N)
            (copy_procs : cnode -> N -> cnode * N) (vr : variant) (t : cnode)
@@ -424,11 +419,11 @@ Theorem C10_consistent_movep_any :
          cwf t ->
          consistent_procs t b ->
          apply_op mk_child D build copy_procs vr t here (OpMoveP D src tgt) uid = Ok (t', rp, uid') ->
-         book_apply b rp = Ok b' -> consistent_procs t' b'.
+         engine_apply b t' rp = Ok b' -> consistent_procs t' b'.
 Proof. exact @consistent_movep_any. Qed.
 Print Assumptions C10_consistent_movep_any.
 
-(* Engine.apply_update files as steps exactly the reported Steps (through r_step, and through r_process by is_step()) and drops those under reported deletions *)
+(* Engine.apply_update files as steps exactly the reported Steps (through r_step, and through r_process by is_step()), after dropping those under reported deletions *)
 Theorem C10_book_apply_steps :
   forall (b : book) (rp : reports) (b' : book) (q : list key) (o : N),
          NoDup (map fst (b_steps b)) ->
@@ -436,9 +431,10 @@ Theorem C10_book_apply_steps :
           In (p, pi) (step_adds rp) -> In (p, pi') (step_adds rp) -> pi_obj pi = pi_obj pi') ->
          book_apply b rp = Ok b' ->
          In (q, o) (b_steps b') <->
-         (In (q, o) (b_steps b) /\ ~ In q (map fst (step_adds rp)) \/
-          (exists pi : pinfo, In (q, pi) (step_adds rp) /\ o = pi_obj pi)) /\
-         (forall d : list key, In d (r_deletions rp) -> starts_with q d = false).
+         In (q, o) (b_steps b) /\
+         (forall d : list key, In d (r_deletions rp) -> starts_with q d = false) /\
+         ~ In q (map fst (step_adds rp)) \/
+         (exists pi : pinfo, In (q, pi) (step_adds rp) /\ o = pi_obj pi).
 Proof. exact @book_apply_steps. Qed.
 Print Assumptions C10_book_apply_steps.
 
@@ -515,6 +511,335 @@ Theorem C10_deleted_process_front_dropped :
          Sched.mem p (Sched.procs Sg U W s) = false -> Sched.flook U (Sched.frt Sg U W s') p = None.
 Proof. exact @deleted_process_front_dropped. Qed.
 Print Assumptions C10_deleted_process_front_dropped.
+
+(* the former statement under the premise it now needs: when no reported process lies under a reported deletion, no registered process does *)
+Theorem C10_book_apply_drops_unreported :
+  forall (b : book) (rp : reports) (b' : book) (d p : list key) (o : N),
+         (forall (q : list key) (pi : pinfo),
+          In (q, pi) (r_process rp) ->
+          pi_step pi = false ->
+          forall d0 : list key, In d0 (r_deletions rp) -> starts_with q d0 = false) ->
+         book_apply b rp = Ok b' ->
+         In d (r_deletions rp) -> In (p, o) (b_procs b') -> starts_with p d = false.
+Proof. exact @book_apply_drops_unreported. Qed.
+Print Assumptions C10_book_apply_drops_unreported.
+
+(* ... registered with its object, when the reports of that path agree on it *)
+Theorem C10_book_apply_registers_obj :
+  forall (b : book) (rp : reports) (b' : book) (p : list key) (pi : pinfo),
+         book_apply b rp = Ok b' ->
+         In (p, pi) (r_process rp) ->
+         pi_step pi = false ->
+         (forall pi' : pinfo,
+          In (p, pi') (r_process rp) -> pi_step pi' = false -> pi_obj pi' = pi_obj pi) ->
+         In (p, pi_obj pi) (b_procs b').
+Proof. exact @book_apply_registers_obj. Qed.
+Print Assumptions C10_book_apply_registers_obj.
+
+(* the process table after Engine.apply_update's folding, explicitly and without premise: everything under a reported deletion goes, then the reported non-step processes are assigned in order *)
+Theorem C10_book_apply_procs_eq :
+  forall (b : book) (rp : reports) (b' : book),
+         book_apply b rp = Ok b' ->
+         b_procs b' =
+         fold_left psetf (filter nonstep (r_process rp))
+           (fold_left pdrop (r_deletions rp) (b_procs b)).
+Proof. exact @book_apply_procs_eq. Qed.
+Print Assumptions C10_book_apply_procs_eq.
+
+(* ... the step table *)
+Theorem C10_book_apply_steps_eq :
+  forall (b : book) (rp : reports) (b' : book),
+         book_apply b rp = Ok b' ->
+         b_steps b' = fold_left psetf (step_adds rp) (fold_left pdrop (r_deletions rp) (b_steps b)).
+Proof. exact @book_apply_steps_eq. Qed.
+Print Assumptions C10_book_apply_steps_eq.
+
+(* record of the pinned order (register, then delete): nothing registered survived under a reported deletion, not even what the same update had put there *)
+Theorem C10_book_apply_pinned_drops :
+  forall (b : book) (rp : reports) (b' : book) (d p : list key) (o : N),
+         book_apply_pinned b rp = Ok b' ->
+         In d (r_deletions rp) ->
+         In (p, o) (b_procs b') \/ In (p, o) (b_steps b') -> starts_with p d = false.
+Proof. exact @book_apply_pinned_drops. Qed.
+Print Assumptions C10_book_apply_pinned_drops.
+
+(* the full engine step: what is registered under a deleted path afterwards was reported by this update and is still held by the store (the node exists and holds that very object) *)
+Theorem C10_engine_apply_drops :
+  forall (b : book) (t' : cnode) (rp : reports) (b' : book) (d p : list key) (o : N),
+         engine_apply b t' rp = Ok b' ->
+         In d (r_deletions rp) ->
+         In (p, o) (b_procs b') ->
+         starts_with p d = true ->
+         exists pi : pinfo,
+           In (p, pi) (r_process rp) /\
+           pi_step pi = false /\ o = pi_obj pi /\ held_proc t' (p, pi) = true.
+Proof. exact @engine_apply_drops. Qed.
+Print Assumptions C10_engine_apply_drops.
+
+(* ... nested move, step table, the folding alone (premise: the target is not inside the moved subtree) *)
+Theorem C10_consistent_steps_movep :
+  forall (mk_child : N -> cnode * N) (D : Type) (build : D -> N -> cnode * N)
+           (copy_procs : cnode -> N -> cnode * N) (vr : variant) (t : cnode)
+           (here src tgt : list key) (uid : N) (t' : cnode) (rp : reports) 
+           (uid' : N) (b b' : book),
+         cwf t ->
+         consistent_steps t b ->
+         starts_with (tgt ++ src) (here ++ src) = false ->
+         apply_op mk_child D build copy_procs vr t here (OpMoveP D src tgt) uid = Ok (t', rp, uid') ->
+         book_apply b rp = Ok b' -> consistent_steps t' b'.
+Proof. exact @consistent_steps_movep. Qed.
+Print Assumptions C10_consistent_steps_movep.
+
+(* ... nested move, step table, the full engine step: no premise on the target *)
+Theorem C10_consistent_steps_movep_any :
+  forall (mk_child : N -> cnode * N) (D : Type) (build : D -> N -> cnode * N)
+           (copy_procs : cnode -> N -> cnode * N) (vr : variant) (t : cnode)
+           (here src tgt : list key) (uid : N) (t' : cnode) (rp : reports) 
+           (uid' : N) (b b' : book),
+         cwf t ->
+         consistent_steps t b ->
+         apply_op mk_child D build copy_procs vr t here (OpMoveP D src tgt) uid = Ok (t', rp, uid') ->
+         engine_apply b t' rp = Ok b' -> consistent_steps t' b'.
+Proof. exact @consistent_steps_movep_any. Qed.
+Print Assumptions C10_consistent_steps_movep_any.
+
+(* THE ENGINE RUNS EXACTLY WHAT IS IN THE HIERARCHY, the full step (deletions first, only what the store still holds), one operation: no premise beyond op_ok (new key for _generate, new distinct keys for _divide) *)
+Theorem C10_engine_consistent_op :
+  forall (mk_child : N -> cnode * N) (D : Type) (build : D -> N -> cnode * N)
+           (copy_procs : cnode -> N -> cnode * N),
+         (forall u : N, proc_nodes (fst (mk_child u)) [] = []) ->
+         (forall u : N, cwf (fst (mk_child u))) ->
+         (forall (x : D) (n : N), cwf (fst (build x n))) ->
+         (forall (x : D) (n : N) (p : list key) (pi : pinfo),
+          In (p, pi) (proc_nodes (fst (build x n)) []) -> pi_in_steps pi = true -> pi_step pi = true) ->
+         (forall (m : cnode) (n : N), cwf m -> cwf (fst (copy_procs m n))) ->
+         forall (t : cnode) (here : list key) (o : sop D) (uid : N) (t' : cnode) 
+           (rp : reports) (uid' : N) (b b' : book),
+         cwf t ->
+         op_ok D t here o ->
+         consistent_procs t b ->
+         consistent_steps t b ->
+         apply_op mk_child D build copy_procs vfixed t here o uid = Ok (t', rp, uid') ->
+         engine_apply b t' rp = Ok b' -> consistent_procs t' b' /\ consistent_steps t' b'.
+Proof. exact @engine_consistent_op. Qed.
+Print Assumptions C10_engine_consistent_op.
+
+(* ... one update carrying ANY NUMBER of operations for one node (applied in the store's order): every operation meets op_ok in the state it is applied to; reports that put the same object at the same path agree on is_step() *)
+Theorem C10_engine_consistent_ops :
+  forall (mk_child : N -> cnode * N) (D : Type) (build : D -> N -> cnode * N)
+           (copy_procs : cnode -> N -> cnode * N),
+         (forall u : N, proc_nodes (fst (mk_child u)) [] = []) ->
+         (forall u : N, cwf (fst (mk_child u))) ->
+         (forall (x : D) (n : N), cwf (fst (build x n))) ->
+         (forall (x : D) (n : N) (p : list key) (pi : pinfo),
+          In (p, pi) (proc_nodes (fst (build x n)) []) -> pi_in_steps pi = true -> pi_step pi = true) ->
+         (forall (m : cnode) (n : N), cwf m -> cwf (fst (copy_procs m n))) ->
+         forall (t : cnode) (here : list key) (ops : list (sop D)) (uid : N) 
+           (t' : cnode) (rp : reports) (uid' : N) (b b' : book),
+         cwf t ->
+         ops_ok mk_child D build copy_procs vfixed t here (order_ops D ops) uid ->
+         consistent_procs t b ->
+         consistent_steps t b ->
+         apply_ops mk_child D build copy_procs vfixed t here ops uid = Ok (t', rp, uid') ->
+         reports_coherent rp ->
+         engine_apply b t' rp = Ok b' -> cwf t' /\ consistent_procs t' b' /\ consistent_steps t' b'.
+Proof. exact @engine_consistent_ops. Qed.
+Print Assumptions C10_engine_consistent_ops.
+
+(* ... along any history of such updates *)
+Theorem C10_engine_consistent_history :
+  forall (mk_child : N -> cnode * N) (D : Type) (build : D -> N -> cnode * N)
+           (copy_procs : cnode -> N -> cnode * N),
+         (forall u : N, proc_nodes (fst (mk_child u)) [] = []) ->
+         (forall u : N, cwf (fst (mk_child u))) ->
+         (forall (x : D) (n : N), cwf (fst (build x n))) ->
+         (forall (x : D) (n : N) (p : list key) (pi : pinfo),
+          In (p, pi) (proc_nodes (fst (build x n)) []) -> pi_in_steps pi = true -> pi_step pi = true) ->
+         (forall (m : cnode) (n : N), cwf m -> cwf (fst (copy_procs m n))) ->
+         forall (h : list (list key * list (sop D))) (t : cnode) (b : book) 
+           (u : N) (t' : cnode) (b' : book) (u' : N),
+         engine_history mk_child D build copy_procs vfixed h t b u t' b' u' ->
+         cwf t ->
+         consistent_procs t b ->
+         consistent_steps t b -> cwf t' /\ consistent_procs t' b' /\ consistent_steps t' b'.
+Proof. exact @engine_consistent_history. Qed.
+Print Assumptions C10_engine_consistent_history.
+
+(* THE REPAIR, case 1: one update generates a compartment and deletes it again - nothing of it is registered, both tables follow the hierarchy *)
+Theorem C10_engine_generate_delete_consistent :
+  forall (mk_child : N -> cnode * N) (D : Type) (build : D -> N -> cnode * N)
+           (copy_procs : cnode -> N -> cnode * N),
+         (forall u : N, proc_nodes (fst (mk_child u)) [] = []) ->
+         (forall u : N, cwf (fst (mk_child u))) ->
+         (forall (x : D) (n : N), cwf (fst (build x n))) ->
+         (forall (x : D) (n : N) (p : list key) (pi : pinfo),
+          In (p, pi) (proc_nodes (fst (build x n)) []) -> pi_in_steps pi = true -> pi_step pi = true) ->
+         (forall (m : cnode) (n : N), cwf m -> cwf (fst (copy_procs m n))) ->
+         forall (vr : variant) (t : cnode) (here : list key) (k : key) (d : D) 
+           (init : tree Z) (uid : N) (t' : cnode) (rp : reports) (uid' : N) 
+           (b b' : book),
+         cwf t ->
+         consistent_procs t b ->
+         consistent_steps t b ->
+         cget t (here ++ [k]) = None ->
+         apply_ops mk_child D build copy_procs vr t here [OpGenerate D k d init; OpDelete D k] uid =
+         Ok (t', rp, uid') ->
+         engine_apply b t' rp = Ok b' -> cwf t' /\ consistent_procs t' b' /\ consistent_steps t' b'.
+Proof. exact @engine_generate_delete_consistent. Qed.
+Print Assumptions C10_engine_generate_delete_consistent.
+
+(* THE REPAIR, case 2: one update moves a compartment away and generates a new one under its key - the moved processes are registered at the new place, the new ones at the old place; no premise besides success *)
+Theorem C10_engine_move_generate_consistent :
+  forall (mk_child : N -> cnode * N) (D : Type) (build : D -> N -> cnode * N)
+           (copy_procs : cnode -> N -> cnode * N),
+         (forall u : N, proc_nodes (fst (mk_child u)) [] = []) ->
+         (forall u : N, cwf (fst (mk_child u))) ->
+         (forall (x : D) (n : N), cwf (fst (build x n))) ->
+         (forall (x : D) (n : N) (p : list key) (pi : pinfo),
+          In (p, pi) (proc_nodes (fst (build x n)) []) -> pi_in_steps pi = true -> pi_step pi = true) ->
+         (forall (m : cnode) (n : N), cwf m -> cwf (fst (copy_procs m n))) ->
+         forall (vr : variant) (t : cnode) (here : list key) (k : key) (tgt : list key) 
+           (d : D) (init : tree Z) (uid : N) (t' : cnode) (rp : reports) 
+           (uid' : N) (b b' : book),
+         cwf t ->
+         consistent_procs t b ->
+         consistent_steps t b ->
+         apply_ops mk_child D build copy_procs vr t here [OpMove D k tgt; OpGenerate D k d init] uid =
+         Ok (t', rp, uid') ->
+         engine_apply b t' rp = Ok b' -> cwf t' /\ consistent_procs t' b' /\ consistent_steps t' b'.
+Proof. exact @engine_move_generate_consistent. Qed.
+Print Assumptions C10_engine_move_generate_consistent.
+
+(* the full-step invariant at the concrete kit of the correspondence (the model of Corr/Structc.run_hist) *)
+Theorem C10_structc_engine_consistent_history :
+  forall (h : list (list key * list (sop N))) (t : cnode) (b : book) 
+           (u : N) (t' : cnode) (b' : book) (u' : N),
+         engine_history mk_child N build copy_procs vfixed h t b u t' b' u' ->
+         cwf t ->
+         consistent_procs t b ->
+         consistent_steps t b -> cwf t' /\ consistent_procs t' b' /\ consistent_steps t' b'.
+Proof. exact @structc_engine_consistent_history. Qed.
+Print Assumptions C10_structc_engine_consistent_history.
+
+(* RECORD OF THE PINNED ORDER, concrete kit: one update moves compartment 20 to the other colony and generates a new 20 - the pinned Engine.apply_update (register, then delete) loses the new compartment's process (a process node of the hierarchy that is not in the table); the repaired step registers both and both tables follow the hierarchy *)
+Theorem C10_book_apply_pinned_refuted :
+  exists (t' : cnode) (rp : reports) (u' : N) (bp be : book),
+           cwf pin_root /\
+           consistent_procs pin_root pin_book /\
+           consistent_steps pin_root pin_book /\
+           kapply_ops vfixed pin_root [10%N] [OpMove N 20%N [11%N]; OpGenerate N 20%N 0%N (Nd [])]
+             200 = Ok (t', rp, u') /\
+           kbook_apply_pinned pin_book rp = Ok bp /\
+           kengine_apply pin_book t' rp = Ok be /\
+           In ([10%N; 20%N; kCnt], 207%N) (proc_paths t') /\
+           In ([11%N; 20%N; kCnt], 107%N) (proc_paths t') /\
+           ~ In [10%N; 20%N; kCnt] (map fst (b_procs bp)) /\
+           ~ consistent_procs t' bp /\
+           In ([10%N; 20%N; kCnt], 207%N) (b_procs be) /\
+           In ([11%N; 20%N; kCnt], 107%N) (b_procs be) /\
+           consistent_procs t' be /\ consistent_steps t' be.
+Proof. exact @book_apply_pinned_refuted. Qed.
+Print Assumptions C10_book_apply_pinned_refuted.
+
+(* why only what the store still holds: one update generates compartment 21 and deletes it - folding the raw reports with the deletions first registers a process that is gone; the full step leaves the table as it was *)
+Theorem C10_engine_held_needed :
+  exists (t' : cnode) (rp : reports) (u' : N) (bb be : book),
+           kapply_ops vfixed pin_root [10%N] [OpGenerate N 21%N 0%N (Nd []); OpDelete N 21%N] 200 =
+           Ok (t', rp, u') /\
+           cget t' [10%N; 21%N] = None /\
+           kbook_apply pin_book rp = Ok bb /\
+           kengine_apply pin_book t' rp = Ok be /\
+           In ([10%N; 21%N; kCnt], 207%N) (b_procs bb) /\
+           ~ consistent_procs t' bb /\
+           b_procs be = b_procs pin_book /\ consistent_procs t' be /\ consistent_steps t' be.
+Proof. exact @engine_held_needed. Qed.
+Print Assumptions C10_engine_held_needed.
+
+(* why the folding alone needs the premise on a nested move: a move into the moved subtree itself - the raw reports register a step that is gone, the full step registers nothing *)
+Theorem C10_movep_book_apply_premise_needed :
+  exists (t' : cnode) (rp : reports) (uid' : N) (bb be : book),
+           cwf cxm_tree3 /\
+           consistent_procs cxm_tree3 cxm_book3 /\
+           consistent_steps cxm_tree3 cxm_book3 /\
+           apply_op cx_mk_child unit cx_build cx_copy vfixed cxm_tree3 []
+             (OpMoveP unit [1%N; 2%N] [1%N; 2%N]) 10 = Ok (t', rp, uid') /\
+           book_apply cxm_book3 rp = Ok bb /\
+           engine_apply cxm_book3 t' rp = Ok be /\
+           step_paths t' = [] /\
+           b_steps bb = [([1%N; 2%N; 1%N; 2%N; 5%N], 6%N)] /\
+           ~ consistent_steps t' bb /\
+           b_steps be = [] /\ consistent_procs t' be /\ consistent_steps t' be.
+Proof. exact @movep_book_apply_premise_needed. Qed.
+Print Assumptions C10_movep_book_apply_premise_needed.
+
+(* Model/Fronts.v (Engine.front is keyed by path, Model/Sched.v by pid): after Engine.apply_update every process object of the table has exactly the schedule entry it had before, wherever it was registered then, and a new object has none (side conditions on the reports: functional_reports, not_in_place, no_rotation, steps_apart - each shown necessary by a needs_* example) *)
+Theorem C10_front_follows_identity :
+  forall (T : Type) (b b' : book) (rp : reports) (fr : fronts T),
+         wf_front T (b_procs b) fr ->
+         book_apply b rp = Ok b' ->
+         NoDup (map snd (b_procs b')) ->
+         functional_reports rp ->
+         not_in_place b rp ->
+         no_rotation b rp ->
+         steps_apart b rp ->
+         forall (o : N) (p' : list key),
+         In (p', o) (b_procs b') ->
+         entry_of T (b_procs b') (front_apply T b fr rp) o = entry_of T (b_procs b) fr o.
+Proof. exact @front_follows_identity. Qed.
+Print Assumptions C10_front_follows_identity.
+
+(* INVARIANT: front entries exist only for registered processes, one per path, objects registered once *)
+Theorem C10_front_apply_wf :
+  forall (T : Type) (b b' : book) (rp : reports) (fr : fronts T),
+         wf_front T (b_procs b) fr ->
+         book_apply b rp = Ok b' ->
+         NoDup (map snd (b_procs b')) -> wf_front T (b_procs b') (front_apply T b fr rp).
+Proof. exact @front_apply_wf. Qed.
+Print Assumptions C10_front_apply_wf.
+
+(* what left the table has no entry left *)
+Theorem C10_front_apply_gone :
+  forall (T : Type) (b b' : book) (rp : reports) (fr : fronts T) (p : list key) (e : T),
+         wf_front T (b_procs b) fr ->
+         book_apply b rp = Ok b' -> In (p, e) (front_apply T b fr rp) -> In p (map fst (b_procs b')).
+Proof. exact @front_apply_gone. Qed.
+Print Assumptions C10_front_apply_gone.
+
+(* the invariant along any history of updates *)
+Theorem C10_run_wf :
+  forall (T : Type) (h : list reports) (b : book) (fr : fronts T) (b' : book) (fr' : fronts T),
+         wf_front T (b_procs b) fr ->
+         run T b fr h = Ok (b', fr') -> hist_nodup b h -> wf_front T (b_procs b') fr'.
+Proof. exact @run_wf. Qed.
+Print Assumptions C10_run_wf.
+
+(* an object that stays registered through a history ends with the entry it started with *)
+Theorem C10_run_follows :
+  forall (T : Type) (o : N) (h : list reports) (b : book) (fr : fronts T) 
+           (b' : book) (fr' : fronts T),
+         wf_front T (b_procs b) fr ->
+         run T b fr h = Ok (b', fr') ->
+         hist_follows o b h -> entry_of T (b_procs b') fr' o = entry_of T (b_procs b) fr o.
+Proof. exact @run_follows. Qed.
+Print Assumptions C10_run_follows.
+
+(* the pinned code on a move: the moved process lost its entry; the current code keeps it (concrete kit) *)
+Theorem C10_front_apply_pinned_refuted :
+  exists (t' : cnode) (rp : reports) (u' : N) (be : book),
+           kapply_ops vfixed pin_root [10%N] [OpMove N 20%N [11%N]] 200 = Ok (t', rp, u') /\
+           kengine_apply pin_book t' rp = Ok be /\
+           (let rph := held_reports t' rp in
+            let fr0 := map (fun po : list key * N => (fst po, fst po)) (b_procs pin_book) in
+            wf_front (list key) (b_procs pin_book) fr0 /\
+            In ([10%N; 20%N; kCnt], 107%N) (b_procs pin_book) /\
+            In ([11%N; 20%N; kCnt], 107%N) (b_procs be) /\
+            entry_of (list key) (b_procs pin_book) fr0 107 = Some [10%N; 20%N; kCnt] /\
+            entry_of (list key) (b_procs be) (front_apply_pinned (list key) pin_book fr0 rph) 107 =
+            None /\
+            entry_of (list key) (b_procs be) (front_apply (list key) pin_book fr0 rph) 107 =
+            Some [10%N; 20%N; kCnt] /\ NoDup (map snd (b_procs be)) /\ reports_follow pin_book rph).
+Proof. exact @front_apply_pinned_refuted. Qed.
+Print Assumptions C10_front_apply_pinned_refuted.
 
 
 (* ---- non-vacuity on the concrete kit (Model/StructC.v) ---- *)
